@@ -109,4 +109,30 @@ def isLowerHull (pts : List (Rat × Rat)) (mask : List Bool) : Bool :=
   pairs.all (fun (a, b) => (List.range (b - a + 1)).all fun t =>
       decide (cross (p a).1 (p a).2 (p b).1 (p b).2 (p (a + t)).1 (p (a + t)).2 ≥ 0))
 
+/-! ### rubberband: the baseline `np.interp(x, x[mask], y[mask])` through the masked vertices -/
+
+/-- `np.interp(x, xp, fp)` at one abscissa, for `chain = zip xp fp` with `xp` strictly increasing (NumPy
+`arr_interp`: `j` = the last sample with `xp[j] ≤ x` — a binary search, here the equivalent linear scan over the
+sorted samples; `x < xp[0]` → `fp[0]`, `x ≥ xp[-1]` → `fp[-1]`, `xp[j] == x` → `fp[j]`, otherwise
+`slope*(x - xp[j]) + fp[j]` with `slope = (fp[j+1]-fp[j])/(xp[j+1]-xp[j])`).  NumPy raises on an empty sample
+list; the `[]` case is a totalisation that no theorem relies on (they assume a non-empty chain). -/
+def interp1 : List (Rat × Rat) → Rat → Rat
+  | [], _ => 0
+  | [p], _ => p.2
+  | p :: q :: rest, x =>
+      if x < q.1 then (if x ≤ p.1 then p.2 else (q.2 - p.2) / (q.1 - p.1) * (x - p.1) + p.2)
+      else interp1 (q :: rest) x
+
+/-- the indices kept by a boolean mask (`x[mask]` with `len(mask) == len(x)`, as in `rubberband`) -/
+def maskIdx (n : Nat) (mask : List Bool) : List Nat := (List.range n).filter fun i => mask.getD i false
+
+/-- `pybaselines/classification.py:_Classification.rubberband`, branch `lam is None or lam == 0`:
+`baseline = np.interp(self.x, self.x[mask], y[mask])`, one value per data point -/
+def hullInterp (pts : List (Rat × Rat)) (mask : List Bool) : List Rat :=
+  let chain := (maskIdx pts.length mask).map fun i => pts.getD i (0, 0)
+  pts.map fun p => interp1 chain p.1
+
+/-- `y + c` -/
+def shiftPts (c : Rat) (pts : List (Rat × Rat)) : List (Rat × Rat) := pts.map fun p => (p.1, p.2 + c)
+
 end PbVerif.Morph
